@@ -14,7 +14,7 @@ RULE = ('the full finite grid: backend name in {absent, "fk", "fk/ALSA", ""} x a
 FUNCS = ['open_input', 'open_output', 'open_ioport', 'get_input_names', 'get_output_names', 'get_ioport_names']
 # 'e' is listed the way portmidi and pygame list devices: one entry per direction under the same name
 DEVICES = [('a', True, False), ('b', True, True), ('e', True, False), ('c', False, True), ('d', True, True), ('b2', False, False),
-           ('e', False, True)]
+           ('e', False, True), ('b', True, True)]       # and two identical interfaces: 'b' twice
 
 
 def tok(s):
